@@ -7,7 +7,7 @@
 #include <vector>
 #include "util.hh"
 
-#define MAX_TASKS 8
+#define MAX_TASKS 24
 
 // ---------------------------------------------------------------- violations
 struct Violation {
@@ -102,7 +102,7 @@ int cur_task();          // id of the running simulated task (0 in single-task b
 int cur_op(int task);    // index of the op that task is executing
 
 // ---------------------------------------------------------------- entropy device
-struct EntropyDraw { int task, op; std::string bytes; const void *buf; };
+struct EntropyDraw { int task, op; std::string bytes; const void *buf; bool complete; };   // one delivery of an OS source: the whole request, or (short read) its beginning
 struct EntropyDev {
   static EntropyDev &get();
   uint64_t seed = 0;
@@ -112,6 +112,7 @@ struct EntropyDev {
   void begin_run(uint64_t s);
   void begin_op(int task);
   void fill(int task, void *buf, size_t n);
+  void note_partial(int task, const void *buf, size_t n);   // a short delivery that the source itself wrote to buf
 };
 
 // ---------------------------------------------------------------- thread runtime (thr_rt.cc; stubs elsewhere)
